@@ -36,6 +36,7 @@ CL = {901: 'work split differs from the rule (a chunk in two lists / missing / o
       902: 'number of member cells differs', 903: 'sum or sum of squares differs',
       904: 'count of cells above 0 / above 1 / at least 1 CPM differs',
       905: 'collapsed (coarser) hierarchy differs from the statistics of the coarse labels',
+      907: 'collapse over two levels (direct or chained through the intermediate file) differs',
       906: 'merged file does not keep, per cluster, the row of the dataset with the most cells',
       910: 'taxonomy stored in the statistics file differs from the input taxonomy',
       911: 'raw-count statistics differ from the float64 recomputation', 912: 'stage raised'}
@@ -58,15 +59,20 @@ def gen_dataset(rng, raw=False):
              for i in range(n)]
     par = [rng.randint(1, 2) for _ in range(NCl)]
     return {'NF': NF, 'R': rng.randint(1, 6), 'P': rng.randint(1, 4), 'NCl': NCl, 'NG': NG, 'cells': cells,
-            'par': par, 'raw': raw, 'enc': [rng.choice(['dense', 'csr', 'csc']) for _ in range(NF)]}
+            'par': par, 'raw': raw, 'enc': [rng.choice(['dense', 'csr', 'csc']) for _ in range(NF)],
+            # three-level variant: class K -> super class par2[K-1]; class and super-class names are chosen
+            # so that the order in which they are met walking the tree is not their alphabetical order
+            'par2': [rng.randint(1, 2), rng.randint(1, 2)] if rng.random() < 0.5 else None}
 
 
-def _write_files(ds, d, which=None):
+def _write_files(ds, d, which=None, reverse=False):
     paths = []
     for f in range(1, ds['NF'] + 1):
         idx = [i for i, c in enumerate(ds['cells']) if c['fil'] == f and (which is None or i in which)]
         if not idx:
             continue
+        if reverse:
+            idx = idx[::-1]
         X = np.array([ds['cells'][i]['vec'] for i in idx], dtype=float).reshape((len(idx), ds['NG']))
         enc = ds['enc'][f - 1]
         M = sp.csr_matrix(X) if enc == 'csr' else sp.csc_matrix(X) if enc == 'csc' else X
@@ -81,11 +87,43 @@ def _write_files(ds, d, which=None):
 def _tree(ds, which=None):
     classes = sorted(set(ds['par']))
     t = {'hierarchy': ['class', 'cluster'],
-         'class': {f'K{K}': [f'k{k + 1}' for k in range(ds['NCl']) if ds['par'][k] == K] for K in classes},
+         'class': {_K(K): [f'k{k + 1}' for k in range(ds['NCl']) if ds['par'][k] == K] for K in classes},
          'cluster': {f'k{k}': [f'cell{i + 1}' for i, c in enumerate(ds['cells'])
                                if c['lab'] == k and (which is None or i in which)]
                      for k in range(1, ds['NCl'] + 1)}}
+    if ds.get('par2'):
+        t['hierarchy'] = ['sup', 'class', 'cluster']
+        t['sup'] = {}
+        for K in classes:
+            t['sup'].setdefault(_U(ds['par2'][K - 1]), []).append(_K(K))
     return t
+
+
+def _K(K):
+    return {1: 'Kz', 2: 'Ka'}[K]       # met in the order Kz, Ka: not alphabetical
+
+
+def _U(U):
+    return {1: 'Uq', 2: 'Ub'}[U]
+
+
+def _permuted_copy(src, dst, rng):
+    """the same statistics with the rows stored in another order (its own cluster_to_row says which)"""
+    shutil.copy(src, dst)
+    with h5py.File(dst, 'a') as f:
+        c2r = json.loads(f['cluster_to_row'][()].decode())
+        names = sorted(c2r)
+        perm = list(range(len(names)))
+        rng.shuffle(perm)
+        new = {nm: perm[c2r[nm]] for nm in names}
+        for k in ('n_cells', 'sum', 'sumsq', 'gt0', 'gt1', 'ge1'):
+            a = f[k][()]
+            b = np.zeros_like(a)
+            for nm in names:
+                b[new[nm]] = a[c2r[nm]]
+            f[k][...] = b
+        del f['cluster_to_row']
+        f.create_dataset('cluster_to_row', data=json.dumps(new).encode('utf-8'))
 
 
 def _read_stats(path, names, genes):
@@ -131,9 +169,37 @@ def _case(args):
             tree_out.pop('metadata', None)
             if tree_out != tree:
                 issues.append((910, 'stored taxonomy differs from the input taxonomy'))
+            # the same cells written again AT THE SAME PATHS in reverse row order: same statistics
+            _write_files(ds, d, reverse=True)
+            out_b = os.path.join(d, 'stats_b.h5')
+            precompute_summary_stats_from_h5ad_list_and_tree(
+                data_path_list=paths, taxonomy_tree=TaxonomyTree(data=tree), output_path=out_b,
+                rows_at_a_time=ds['R'], normalization='raw' if ds['raw'] else 'log2CPM',
+                tmp_dir=os.path.join(d, 'scratch'), n_processors=ds['P'])
+            stats_b, _ = _read_stats(out_b, [(f'k{k}', k) for k in range(1, ds['NCl'] + 1)], genes)
+            stats = stats + stats_b
+            cnames = [(_K(K), K) for K in sorted(set(ds['par']))]
+            three = bool(ds.get('par2'))
+            keep = ['sup', 'class'] if three else ['class']
             coarse_out = os.path.join(d, 'coarse.h5')
-            truncate_precomputed_stats_file(out, coarse_out, ['class'])
-            coarse, _ = _read_stats(coarse_out, [(f'K{K}', K) for K in sorted(set(ds['par']))], genes)
+            truncate_precomputed_stats_file(out, coarse_out, keep)
+            coarse, _ = _read_stats(coarse_out, cnames, genes)
+            # the same collapse from a file whose rows are stored in another order
+            prng = random.Random(len(ds['cells']) * 7 + ds['R'])
+            perm_in = os.path.join(d, 'perm.h5')
+            _permuted_copy(out, perm_in, prng)
+            perm_out = os.path.join(d, 'coarse_perm.h5')
+            truncate_precomputed_stats_file(perm_in, perm_out, keep)
+            coarse += _read_stats(perm_out, cnames, genes)[0]
+            coarse2 = []
+            if three:
+                unames = [(_U(U), U) for U in sorted(set(ds['par2'][K - 1] for K in set(ds['par'])))]
+                for src in (out, coarse_out, perm_out):      # directly and chained through the class level
+                    so = os.path.join(d, 'sup_' + os.path.basename(src))
+                    truncate_precomputed_stats_file(src, so, ['sup'])
+                    coarse2 += _read_stats(so, unames, genes)[0]
+                truncate_precomputed_stats_file(out, os.path.join(d, 'cl_only.h5'), ['class'])
+                coarse += _read_stats(os.path.join(d, 'cl_only.h5'), cnames, genes)[0]
             # merge of two per-dataset files: cells with even / odd index
             merged = []
             if not ds['raw'] and len(ds['cells']) >= 4:
@@ -144,8 +210,8 @@ def _case(args):
                     os.makedirs(hd)
                     hp = _write_files(ds, hd, which)
                     ht = _tree(ds, which)
-                    if not hp:
-                        ok = False
+                    if not hp or not any(ds['cells'][i]['lab'] > 0 for i in which):
+                        ok = False          # a half without a single labelled cell is not a reference dataset
                         break
                     ho = os.path.join(d, f'half{h}.h5')
                     precompute_summary_stats_from_h5ad_list_and_tree(
@@ -187,7 +253,8 @@ def _case(args):
                         or abs(got[2] - want[2]) > 1e-9 * max(1, abs(want[2])):
                     issues.append((911, f'cluster {s["id"]} gene {s["g"]}: {got} vs {want}'))
             rec = {'NF': ds['NF'], 'R': ds['R'], 'P': ds['P'], 'NCl': ds['NCl'], 'NG': ds['NG'],
-                   'cells': ds['cells'], 'split': split, 'stats': [], 'coarse': [], 'par': ds['par'], 'merged': []}
+                   'cells': ds['cells'], 'split': split, 'stats': [], 'coarse': [], 'par': ds['par'], 'merged': [],
+                   'coarse2': [], 'par2': ds.get('par2') or [1, 1]}
         else:
             def ints(rows, key):
                 out_ = []
@@ -199,7 +266,8 @@ def _case(args):
                 return out_
             rec = {'NF': ds['NF'], 'R': ds['R'], 'P': ds['P'], 'NCl': ds['NCl'], 'NG': ds['NG'],
                    'cells': ds['cells'], 'split': split, 'stats': ints(stats, 'k'), 'coarse': ints(coarse, 'K'),
-                   'par': ds['par'], 'merged': merged}
+                   'par': ds['par'], 'merged': merged, 'coarse2': ints(coarse2, 'U'),
+                   'par2': ds.get('par2') or [1, 1]}
     except Exception as e:
         import traceback
         issues.append((912, f'{type(e).__name__}: {e} | {traceback.format_exc()[-600:]}'))
